@@ -1,7 +1,7 @@
 """Structural rules on the Python layer: R-PATH instances (C12-C16), R-TAB (encoder/decoder tables), R-EFF (Python),
 R-SAN (contiguity before raw pointers)."""
 from ..cfront import AnalysisError
-from ..ir import fmt, walk_stmts, walk_expr, stmt_exprs, dotted, sub_blocks
+from ..ir import fmt, walk_stmts, walk_expr, stmt_exprs, dotted, sub_blocks, orient
 from ..model import calls_in
 from ..symexec import assigned_vars
 from .iterspace import paths_increments
@@ -428,9 +428,9 @@ def rule_subseq_search(ctx, m):
     heapv = pushes[0][1][2][0] if pushes and pushes[0][1][2] else None
     # (ii) strictness
     skip = [t for t in lb_if.then if t.k == 'if' and t.then and t.then[-1].k == 'continue']
-    ok = len(skip) == 1 and lbv is not None and skip[0].cond == ('bin', '>', lbv, thr)
+    ok = len(skip) == 1 and lbv is not None and orient(skip[0].cond, lbv) == ('>', lbv, thr)
     ctx.check(ok, 'R-PRUNE', file, 'SubsequenceSearch.align', 'LB skip comparator', 'a candidate may be skipped only when `lb > max_dist` (ties must be kept)', lb_if.line)
-    adm = [x for s in walk_stmts(loop.body) if s.k == 'if' for x in walk_expr(s.cond) if x[0] == 'bin' and x[1] in ('<', '<=') and x[2] == distv and x[3] == thr]
+    adm = [('bin',) + o for s in walk_stmts(loop.body) if s.k == 'if' for x in walk_expr(s.cond) for o in [orient(x, distv)] if o is not None and o[0] in ('<', '<=') and o[2] == thr]
     ctx.check(bool(adm) and all(x[1] == '<=' for x in adm), 'R-PRUNE', file, 'SubsequenceSearch.align', 'admission comparator',
               'a candidate is admitted when `dist <= max_dist` (a distance equal to the current k-th best must not be dropped)', loop.line)
     # (iii) threshold re-read after every push
@@ -1449,19 +1449,29 @@ def rule_dp_empty_row(ctx, m):
         raise AnalysisError('anchor vanished: early exit on last_under_max_dist in dp')
     # an earlier unconditional return for an empty second sequence also settles it
     early = any(s.k == 'if' and fmt(s.cond).replace('(', '').replace(')', '') in ('c == 0', 'not c', 'len(s2) == 0') and any(t.k == 'return' for t in s.then) for s in f.body)
+    # the number of columns: len(<second sequence>) or a local holding it
+    s2len = ('call', ('var', 'len'), (('var', f.args[1]),), ())
+    ncols = {s2len} | {t.target for t in walk_stmts(f.body) if t.k == 'assign' and t.target[0] == 'var' and t.value == s2len} | \
+        {tt for t in walk_stmts(f.body) if t.k == 'assign' and t.target[0] == 'tuple' and t.value[0] == 'tuple'
+         for tt, vv in zip(t.target[1], t.value[1]) if vv == s2len}
     for s in exits:
         conj = []
 
         def flat(e):
             if e[0] == 'bin' and e[1] == 'and':
                 flat(e[2]); flat(e[3])
-            elif e[0] == 'boolop' and e[1] == 'and':
-                for x in e[2]:
-                    flat(x)
             else:
-                conj.append(fmt(e).replace('(', '').replace(')', ''))
+                conj.append(e)
         flat(s.cond)
-        ok = early or any(x in ('c > 0', 'c >= 1', 'c != 0', 'c', '0 < c', 'lens2 > 0') for x in conj)
+
+        def positive(e):
+            if e in ncols:
+                return True
+            if e[0] == 'bin' and e[1] == '!=' and ((e[2] in ncols and e[3] == ('num', 0)) or (e[3] in ncols and e[2] == ('num', 0))):
+                return True
+            o = orient(e, lambda y: y in ncols)
+            return o is not None and ((o[0] == '>' and o[2] == ('num', 0)) or (o[0] == '>=' and o[2] == ('num', 1)))
+        ok = early or any(positive(x) for x in conj)
         ctx.check(ok, 'R-PRUNE', pm.path, 'dp', 'empty-row exit',
                   'the exit `%s` also fires for a row that has no cells at all (second sequence empty): needleman_wunsch("AB", "") returns -inf although '
                   'the only alignment (two gaps) scores -2, while needleman_wunsch("", "AB") returns -2' % fmt(s.cond), s.line,
